@@ -139,8 +139,14 @@ impl<W: Write + Seek> XorWriter<W> {
 }
 
 impl Plan {
-    /// Writes the whole data directory. Returns the final index records (positions filled in).
+    /// Writes the whole data directory (block files, then the index with the final positions).
     pub fn write(&mut self, dir: &Path) -> Result<(), String> {
+        self.write_files(dir)?;
+        self.write_index(&dir.join("index"))
+    }
+
+    /// Writes everything except the index; fills in the (file, position) of the index records.
+    pub fn write_files(&mut self, dir: &Path) -> Result<(), String> {
         std::fs::create_dir_all(dir).map_err(|e| e.to_string())?;
         for f in &self.files {
             let path = dir.join(&f.name);
@@ -182,7 +188,7 @@ impl Plan {
         for d in &self.extra_dirs {
             std::fs::create_dir_all(dir.join(d)).map_err(|e| e.to_string())?;
         }
-        self.write_index(&dir.join("index"))
+        Ok(())
     }
 
     pub fn write_index(&self, path: &Path) -> Result<(), String> {
